@@ -90,6 +90,26 @@ pub fn run(out: &mut Out, seed: u64, tier: &str) {
         if !bonds.is_empty() && rng.chance(0.3) { let b = bonds[0]; bonds.push((b.1, b.0, b.2)); }
         one(out, n, &bonds, &mut count, &mut nontrivial);
     }
+    // graphs that come from perception, with the atoms at real coordinates (the lists must not depend on the geometry the bonds
+    // were perceived from: linear molecules and chains on an axis, planar rings, library and random molecules)
+    let mut perceived = 0usize;
+    let mut real: Vec<crate::gen::Mol> = crate::gen::library();
+    for zs in [vec![1usize, 6, 6, 1], vec![1, 6, 7], vec![8, 6, 8], vec![1, 6, 6, 6, 6, 1], vec![6, 6, 6, 6], vec![17, 6, 6, 6, 7]] { real.push(crate::gen::linear_chain(&zs, 0.9)); }
+    for _ in 0..(if tier == "thorough" { 300 } else { 40 }) { real.push(crate::gen::random_mol(&mut rng)); }
+    for m in real.iter() {
+        if m.n() > 24 || m.min_distance() < 0.5 { continue; }
+        let mol = match catch(|| m.build()) { Some(x) => x, None => continue };
+        let got = connectivity(&mol);
+        let bonds = got.bonds.clone();
+        let text = canon_conn(&got);
+        out.case(&format!("graph {} {}", m.n(), bonds_text(&bonds)), &text);
+        let want = canon_conn(&reference_conn(m.n(), &bonds));
+        if text != want {
+            out.oracle_fail(&format!("connectivity perceived from coordinates is not its own bond graph's: got {} want {}", text, want), &m.xyz_text());
+        }
+        perceived += 1;
+    }
+    out.stat("graphs_from_perception_at_real_coordinates", perceived);
     out.stat("graphs", count);
     out.stat("graphs_with_angles", nontrivial);
     out.sample("graph 4 0-1:2,1-2:2,2-0:2,2-3:2  (triangle with a tail)");
